@@ -81,6 +81,95 @@ fn first_bad_edge<'a>(root: &'a AstNode<'a>) -> String {
     "no-containment-failure".into()
 }
 
+/// Table geometry, list children and heading level checked directly on the real tree (the same
+/// clauses as the Lean `localOk`), used for trees too large to ship to the driver.
+fn shape_rust<'a>(root: &'a AstNode<'a>) -> Result<(), String> {
+    use comrak::nodes::NodeValue as V;
+    for n in root.descendants() {
+        match &n.data.borrow().value {
+            V::Table(t) => {
+                if t.alignments.len() != t.num_columns {
+                    return Err(format!("table: {} alignments but num_columns = {}", t.alignments.len(), t.num_columns));
+                }
+                let mut first = true;
+                let mut rows = 0usize;
+                for (ri, row) in n.children().enumerate() {
+                    rows += 1;
+                    match &row.data.borrow().value {
+                        V::TableRow(h) => {
+                            if *h != first {
+                                return Err(format!("table row {}: header flag {} (header row must be first and unique)", ri, h));
+                            }
+                        }
+                        _ => return Err("table child is not a row".into()),
+                    }
+                    first = false;
+                    let cells = row.children().count();
+                    if cells != t.num_columns {
+                        return Err(format!("table row {} has {} cells but the table has {} columns", ri, cells, t.num_columns));
+                    }
+                    if row.children().any(|c| !matches!(c.data.borrow().value, V::TableCell)) {
+                        return Err("row child is not a cell".into());
+                    }
+                }
+                if rows == 0 {
+                    return Err("table without rows".into());
+                }
+            }
+            V::Heading(h) => {
+                if h.level < 1 || h.level > 6 {
+                    return Err(format!("heading level {}", h.level));
+                }
+            }
+            V::List(_) => {
+                if n.children().any(|c| !matches!(c.data.borrow().value, V::Item(_) | V::TaskItem(_))) {
+                    return Err("list child is not an item".into());
+                }
+            }
+            _ => {}
+        }
+    }
+    Ok(())
+}
+
+/// Curated boundary shapes: tables whose auto-completed cells cross MAX_AUTOCOMPLETED_CELLS (500000).
+fn boundary_tables(rep: &mut Report) {
+    for (cols, cells_per_row) in [(1000usize, 1usize), (700, 2), (2000, 1), (65535, 1)] {
+        let per_row = cols - cells_per_row;
+        let rows = 500_000 / per_row.max(1) + 6;
+        let mut md = String::new();
+        md.push_str(&"|a".repeat(cols));
+        md.push_str("|\n");
+        md.push_str(&"|-".repeat(cols));
+        md.push_str("|\n");
+        for _ in 0..rows.min(2000) {
+            md.push_str(&"|x".repeat(cells_per_row));
+            md.push_str("|\n");
+        }
+        let o = Opts::default().with("table", true);
+        let c = o.to_comrak();
+        let arena = Arena::new();
+        let input = format!("boundary-table {} {}", cols, cells_per_row);
+        match catch_unwind(AssertUnwindSafe(|| parse_document(&arena, &md, &c))) {
+            Err(_) => rep.fail("parse-total", "panic", input, "parser panicked".into()),
+            Ok(root) => {
+                rep.s_evals += 1;
+                rep.count("boundary-table");
+                rep.add("boundary-table-nodes", root.descendants().count() as u64);
+                if let Err(e) = shape_rust(root) {
+                    rep.fail("shape", "table-geometry-at-autocomplete-limit", input.clone(), e);
+                }
+                if root.validate().is_err() {
+                    rep.fail("validator-accepts", "boundary-table", input.clone(), "validate() rejects".into());
+                }
+                if let Err(e) = links_ok(root) {
+                    rep.fail("links-consistent", "links", input, e);
+                }
+            }
+        }
+    }
+}
+
 pub fn push_doc<'a>(bt: &mut Batch<'a>, rep: &mut Report, o: Opts, md: String, name: &'static str) {
     let input = crate::htmlk::doc_input(&o, &md);
     let c = o.to_comrak();
@@ -103,6 +192,9 @@ pub fn push_doc<'a>(bt: &mut Batch<'a>, rep: &mut Report, o: Opts, md: String, n
     rep.s_evals += 1;
     if let Err(e) = links_ok(root) {
         rep.fail("links-consistent", "links", input.clone(), e);
+    }
+    if let Err(e) = shape_rust(root) {
+        rep.fail("shape", "geometry-rust-side", input.clone(), e);
     }
     let valid = root.validate().is_ok();
     let edge = first_bad_edge(root);
@@ -150,6 +242,7 @@ pub fn run(cfg: &Cfg, rep: &mut Report) {
     rep.exhaustive = true;
     rep.exhaustive_what.push(format!("can_contain_type on all {} x {} (parent kind, child kind) pairs", KIND_WIRE.len(), KIND_WIRE.len()));
     bt.run(&m, rep);
+    boundary_tables(rep);
     // 2. parsed trees
     let n = if cfg.tier_thorough { 200_000 } else if cfg.full { 50_000 } else { 10_000 };
     let mut done = 0;
@@ -184,6 +277,15 @@ pub fn replay(kind: &str, input: &str) -> Result<Option<String>, String> {
     let m = Model::from_env();
     let mut rep = Report::new("C04");
     let mut bt = Batch::new();
+    if input.starts_with("boundary-table ") {
+        boundary_tables(&mut rep);
+        for c in rep.s_fail.iter() {
+            if kind.is_empty() || c.kind == kind {
+                return Ok(Some(format!("{}: {}", c.kind, c.detail)));
+            }
+        }
+        return Ok(None);
+    }
     if input.starts_with("cancontain ") {
         return Err("containment-table entries are re-checked exhaustively by every run".into());
     }
